@@ -32,6 +32,11 @@ def catalogue() -> list[dict]:
         if ms:
             pid = ms[0]["property"]
             out.append({"id": f"{pid.lower()}-refactor-rename-all-locals", "property": pid, "expect": "silent", "transform": "rename-locals", "source": p.name})
+    # every kept seed (a change written by an independent sub-agent and confirmed to break its
+    # property) must keep firing
+    for mp in sorted((VERIF / "seeded").glob("*/meta.json")):
+        meta = json.loads(mp.read_text())
+        out.append({"id": f"seed-{meta['id']}", "property": meta["property"], "expect": "fire", "patch": f"seeded/{meta['id']}/patch.diff", "source": "seeded"})
     return out
 
 
@@ -89,6 +94,8 @@ def run_variant(m: dict) -> dict:
             )
             # patches may touch tests/docs that are not copied: tolerate those hunks
             err = None
+            if pr.returncode != 0 and "pynetdicom/" in (pr.stdout + pr.stderr) and "FAILED" in (pr.stdout + pr.stderr):
+                err = f"patch did not apply: {(pr.stdout + pr.stderr)[-200:]}"
         elif m.get("transform") == "rename-locals":
             # behaviour-preserving: every local of every function renamed, whole tree re-printed
             _copy_pkg(src, tmp)
